@@ -167,14 +167,17 @@ pub struct HistoryResult {
 
 /// Run one history (indices into `qs`) on a single fresh handle; compare each answer.
 pub fn run_history(bytes: &Arc<Vec<u8>>, qs: &[Q], fresh: &[Result<Ans, String>], hist: &[usize], faults: Option<(u8, u8, u64)>) -> HistoryResult {
-    run_history_eio(bytes, qs, fresh, hist, faults, None)
+    run_history_eio(bytes, qs, fresh, hist, faults, None, 8192)
 }
 
 /// `eio` = (position in the history, n): the n-th read call the archive handle makes during
 /// that query fails ONCE with EIO (transient medium error). That query may answer Err; it and
 /// every other query must otherwise answer like a fresh handle on a healthy file.
-pub fn run_history_eio(bytes: &Arc<Vec<u8>>, qs: &[Q], fresh: &[Result<Ans, String>], hist: &[usize], faults: Option<(u8, u8, u64)>, eio: Option<(usize, u64)>) -> HistoryResult {
+pub fn run_history_eio(bytes: &Arc<Vec<u8>>, qs: &[Q], fresh: &[Result<Ans, String>], hist: &[usize], faults: Option<(u8, u8, u64)>, eio: Option<(usize, u64)>, bufreader_cap: usize) -> HistoryResult {
     let mut world = World::new();
+    // capacity of the archive reader's BufReader (shipped: 8 KiB, larger than most simulated
+    // archives: with the shipped value a handle reads the file once and never again)
+    world.knobs.bufreader_cap = bufreader_cap.max(1);
     if eio.is_some() {
         world.faults.target = PATH.to_string();
     }
